@@ -273,12 +273,6 @@ func mapObjectProperties(mm map[string][]byte, o *Object) (hasData bool, err err
 		}
 		hasData = true
 	}
-	if len(o.MediaType) > 0 {
-		if mm["mediaType"], err = o.MediaType.GobEncode(); err != nil {
-			return hasData, err
-		}
-		hasData = true
-	}
 	if !o.EndTime.IsZero() {
 		if mm["endTime"], err = o.EndTime.GobEncode(); err != nil {
 			return hasData, err
@@ -357,18 +351,6 @@ func mapObjectProperties(mm map[string][]byte, o *Object) (hasData bool, err err
 		}
 		hasData = true
 	}
-	if o.Tag != nil {
-		if mm["tag"], err = gobEncodeItem(o.Tag); err != nil {
-			return hasData, err
-		}
-		hasData = true
-	}
-	if !o.Updated.IsZero() {
-		if mm["updated"], err = o.Updated.GobEncode(); err != nil {
-			return hasData, err
-		}
-		hasData = true
-	}
 	if o.URL != nil {
 		if mm["url"], err = gobEncodeItemOrLink(o.URL); err != nil {
 			return hasData, err
@@ -417,12 +399,6 @@ func mapObjectProperties(mm map[string][]byte, o *Object) (hasData bool, err err
 		}
 		hasData = true
 	}
-	if o.Shares != nil {
-		if mm["shares"], err = gobEncodeItem(o.Shares); err != nil {
-			return hasData, err
-		}
-		hasData = true
-	}
 	if len(o.Source.MediaType)+len(o.Source.Content) > 0 {
 		if mm["source"], err = o.Source.GobEncode(); err != nil {
 			return hasData, err
@@ -438,12 +414,6 @@ func mapActorProperties(mm map[string][]byte, a *Actor) (hasData bool, err error
 		hasData, err = mapObjectProperties(mm, o)
 		return err
 	})
-	if a.Inbox != nil {
-		if mm["inbox"], err = gobEncodeItem(a.Inbox); err != nil {
-			return hasData, err
-		}
-		hasData = true
-	}
 	if a.Inbox != nil {
 		if mm["inbox"], err = gobEncodeItem(a.Inbox); err != nil {
 			return hasData, err
